@@ -215,3 +215,70 @@ example : ({ limit := some 2 } : Listener).Strangers 2 := ⟨rfl, by simp, by si
 /-- **Admission is decided where the model says, and nowhere else** (word for word, checked on this run): `handle_incoming_task` completes the handshake, applies the translated decision (`admitGen`) to the established-connection count of the active set, and only then runs the acknowledgement; `handle_connecting_result` / `add_peer` register without a second decision. -/
 theorem C10_admission_path_is_pinned : Gen.dialingShapeChecked = true := rfl
 end Anemo
+
+namespace Anemo
+
+/-- does this operation, in this state, add a connection that the limit does not govern: an outbound
+dial, or an admitted arrival of a peer that has a table entry (High / Allowed; Never is not admitted) -/
+def exemptAdd (s : Listener) : LOp → Bool
+  | .dialOut _ => true
+  | .arrive p => (lookupAff s.known p).isSome && admits (lookupAff s.known p) s.limit s.connected.length
+  | _ => false
+
+/-- run a history, counting the exempt additions on the way -/
+def runCounting : Listener → List LOp → Listener × Nat
+  | s, [] => (s, 0)
+  | s, op :: t =>
+    let r := runCounting (s.step op).1 t
+    (r.1, r.2 + (if exemptAdd s op then 1 else 0))
+
+theorem runCounting_fst (s : Listener) (ops : List LOp) :
+    (runCounting s ops).1 = ops.foldl (fun s op => (s.step op).1) s := by
+  induction ops generalizing s with
+  | nil => rfl
+  | cons op t ih => simp [runCounting, ih]
+
+theorem step_limit (s : Listener) (op : LOp) : (s.step op).1.limit = s.limit := by
+  cases op <;> simp [Listener.step] <;> split <;> rfl
+
+/-- **The limit over EVERY history, exempt peers and outbound dials included**: however arrivals,
+dials, disconnects and table edits interleave, the established connections never exceed the limit (or
+what was already there) by more than the number of connections the limit does not govern - those the
+application dialled itself and those admitted from peers with a High / Allowed entry. Every other
+connection in excess is impossible; with no exempt addition this is `C10_limit_invariant`. -/
+theorem C10_excess_only_exempt (l : Nat) (ops : List LOp) (s : Listener) (hl : s.limit = some l) :
+    (runCounting s ops).1.connected.length ≤ max l s.connected.length + (runCounting s ops).2 := by
+  induction ops generalizing s with
+  | nil => simp [runCounting]; omega
+  | cons op t ih =>
+    have hl' : (s.step op).1.limit = some l := by rw [step_limit]; exact hl
+    have := ih (s.step op).1 hl'
+    simp only [runCounting]
+    have key : max l (s.step op).1.connected.length ≤ max l s.connected.length + (if exemptAdd s op then 1 else 0) := by
+      cases op with
+      | arrive p =>
+        simp only [Listener.step, exemptAdd]
+        by_cases ha : admits (lookupAff s.known p) s.limit s.connected.length = true
+        · simp only [ha, if_true]
+          have hins := insertSet_length_le s.connected p
+          cases hk : lookupAff s.known p with
+          | none =>
+            have hlt : s.connected.length < l := by simpa [hk, hl, admits] using ha
+            simp; omega
+          | some a => simp; omega
+        · simp [ha]
+      | dialOut p =>
+        have hins := insertSet_length_le s.connected p
+        simp only [Listener.step, exemptAdd, if_true]; omega
+      | disconnect p =>
+        show max l (s.connected.filter (· ≠ p)).length ≤ max l s.connected.length + (if false = true then 1 else 0)
+        have := List.length_filter_le (· ≠ p) s.connected
+        simp only [Bool.false_eq_true, if_false]; omega
+      | setKnown p a => simp [Listener.step, exemptAdd]
+      | removeKnown p => simp [Listener.step, exemptAdd]
+    omega
+
+example : (runCounting { limit := some 1 } [.arrive 10, .arrive 11, .setKnown 12 .allowed, .arrive 12, .dialOut 13]).2 = 2 ∧
+    (runCounting { limit := some 1 } [.arrive 10, .arrive 11, .setKnown 12 .allowed, .arrive 12, .dialOut 13]).1.connected = [10, 12, 13] := by
+  decide
+end Anemo
